@@ -1246,7 +1246,13 @@ package bigbuff
 //@ func (*Notifier).PublishContext
 //@   props C15
 //@   at-call builtin.append#3 eligible : keySubscriber.ctx == nil || lasterr(keySubscriber.ctx) == nil
-//@   at-call builtin.append#3 accepts : rv_valid(arg1[0].Chan) || true
+//@   # what is offered to a subscriber is decided by the published value and that subscriber alone: the value itself when
+//@   # it is valid, the zero value of the subscriber's element type for an untyped nil; always assignable to the element type
+//@   at-call builtin.append#3 accepts : arg1[0].Chan == keySubscriber.target && rv_valid(arg1[0].Send) && rt_assignable(rv_type(arg1[0].Send), rt_elem(rv_type(keySubscriber.target)))
+//@   at-call builtin.append#3 faithful : (rv_valid(valueRef) ==> arg1[0].Send == valueRef) && (!rv_valid(valueRef) ==> arg1[0].Send == rv_zero(rt_elem(rv_type(keySubscriber.target))))
+//@   # completeness: a live subscriber whose element type accepts the value gains exactly one send case per walk step
+//@   loop 0 step offered : (keySubscriber.ctx == nil || lasterr(keySubscriber.ctx) == nil) && ((rv_valid(valueRef) && rt_assignable(rv_type(valueRef), rt_elem(rv_type(keySubscriber.target)))) || (!rv_valid(valueRef) && rnilable(rt_kind(rt_elem(rv_type(keySubscriber.target)))))) ==> len(successCases) == len(athead(0, successCases)) + 1
+//@   loop 0 step onlyone : len(successCases) <= len(athead(0, successCases)) + 1 && len(successCases) >= len(athead(0, successCases))
 //@   at-call reflect.Select#0 readlocked : heldR(n.mutex)
 //@   # a cancelled publisher context publishes nothing; with subscribers present the whole registry of the key is walked
 //@   ensures precancelled : ctx != nil && old(cancelled(ctx)) ==> icalls("reflect.Select") == 0
